@@ -9,3 +9,4 @@ open OrxPar
 #print axioms C02_every_schedule
 #print axioms C02_worker_reports_first
 #print axioms C02_find_all_schedules
+#print axioms C02_with_index_partial_source_finding
